@@ -172,7 +172,10 @@ func (m *valueMaker) leaf(kind string, vc string) reflect.Value {
 		m.rnd.Read(b)
 		v.SetBytes(b)
 	case "time":
-		ts := []time.Time{time.Date(2020, 1, 15, 13, 41, 0, 599000, time.UTC), time.Date(1985, 10, 26, 1, 20, 1, 0, time.FixedZone("", 3600)), time.Date(-50, 3, 15, 12, 0, 0, 0, time.UTC)}
+		ts := []time.Time{time.Date(2020, 1, 15, 13, 41, 0, 599000, time.UTC), time.Date(1985, 10, 26, 1, 20, 1, 0, time.UTC), time.Date(-50, 3, 15, 12, 0, 0, 0, time.UTC)}
+		if loc, err := time.LoadLocation("Europe/Berlin"); err == nil {
+			ts = append(ts, time.Date(2021, 7, 1, 8, 30, 0, 5, loc))
+		}
 		v.Set(reflect.ValueOf(ts[m.next()%len(ts)]))
 	case "ctime":
 		v.Set(reflect.ValueOf(parseTimeKey(newSampler(int64(m.next())).timeK())))
